@@ -186,9 +186,27 @@ func Run(run *ev.Run) {
 
 	// ---- B. end to end: tunnelled vs untunnelled snapshots, threshold predicate ------------------
 	reqN := 0
+	// a front end that answers every request with a 307 to the real server: net/http then sends the request a second
+	// time, from the copy of the body it keeps for that purpose
+	rln, rerr := net.Listen("tcp", "127.0.0.1:0")
+	if rerr != nil {
+		run.Inconclusive("cannot listen on loopback: " + rerr.Error())
+		return
+	}
+	rs := &http.Server{Handler: http.HandlerFunc(func(w http.ResponseWriter, r *http.Request) {
+		io.Copy(io.Discard, r.Body)
+		http.Redirect(w, r, base.String()+r.URL.RequestURI(), http.StatusTemporaryRedirect)
+	}), MaxHeaderBytes: 8 << 20}
+	go rs.Serve(rln)
+	defer rs.Close()
+	redirBase, _ := url.Parse("http://" + rln.Addr().String())
+	viaRedirect := false
 	do := func(c call, q string, body []byte, threshold int, chunked bool) (*kit.Wire, []kit.Invocation, error) {
 		reqN++
 		cl := &kit.Caller{Base: base, Threshold: threshold}
+		if viaRedirect {
+			cl.Base = redirBase
+		}
 		if chunked {
 			cl.Transport = chunkedTransport{}
 		}
@@ -267,26 +285,33 @@ func Run(run *ev.Run) {
 				}
 				fullLen := len(strings.SplitN(w0.Target+"?", "?", 3)[1])
 				type variant struct {
-					T       int
-					chunked bool
+					T        int
+					chunked  bool
+					redirect bool
 				}
 				var variants []variant
 				for _, T := range []int{1, fullLen - 1, fullLen, fullLen + 1, 100000} {
 					if T <= 0 || (T != 1 && (len(pv) > 100000 || len(body) > 100000)) {
 						continue
 					}
-					variants = append(variants, variant{T, false})
+					variants = append(variants, variant{T, false, false})
+					if fullLen > T && T == 1 && len(pv) < 100000 && len(body) < 100000 {
+						// the tunnelled request is sent twice: first to a front end that redirects it (307)
+						variants = append(variants, variant{T, false, true})
+					}
 					if fullLen > T && (T == 1 || T == fullLen-1) {
 						// the same tunnelled request through a transport that does not know the body length in advance
 						// (a streaming or wrapping RoundTripper, a proxy): chunked framing, no Content-Length
-						variants = append(variants, variant{T, true})
+						variants = append(variants, variant{T, true, false})
 					}
 				}
 				for _, vr := range variants {
 					T := vr.T
 					run.Eval(1)
+					viaRedirect = vr.redirect
 					w, inv, err := do(c, q, body, T, vr.chunked)
-					desc := map[string]any{"generation": g, "call": c, "query_len": fullLen, "threshold": T, "body": trunc(string(body)), "param_value": trunc(pv), "chunked_framing": vr.chunked}
+					viaRedirect = false
+					desc := map[string]any{"generation": g, "call": c, "query_len": fullLen, "threshold": T, "body": trunc(string(body)), "param_value": trunc(pv), "chunked_framing": vr.chunked, "resent_after_307": vr.redirect}
 					if w == nil {
 						desc["error"] = fmt.Sprint(err)
 						run.Violation(g+"/e2e/build-error", desc)
@@ -352,7 +377,10 @@ func Run(run *ev.Run) {
 					}
 					run.Count("e2e_pairs", 1)
 					if tunnelled {
-						run.Distinct(fmt.Sprintf("%s|e2e|%s %s %s|%s|%d|%d|%v", g, c.HTTP, c.Restli, c.Path, trunc(q), bi, T, vr.chunked))
+						run.Distinct(fmt.Sprintf("%s|e2e|%s %s %s|%s|%d|%d|%v", g, c.HTTP, c.Restli, c.Path, trunc(q), bi, T, vr.chunked || vr.redirect))
+						if vr.redirect {
+							run.Count("tunnelled_requests_resent_after_redirect", 1)
+						}
 						if len(pv) > 1000000 || len(body) > 1000000 {
 							run.Count("tunnelled_requests_over_1MiB", 1)
 						}
